@@ -201,6 +201,36 @@ def run(ctx, res):
         for sp, fn, what in I.unmodelled:
             res.unmodelled(fn, what, sp)
         per[d] = {"outcomes": len(outs), "err_outcomes_checked": errs, "conversion_errors": len(conv_errs)}
+    # an `Unknown` value carries no type invariant (Unknown::parse accepts every packet type and `Packet::from(unknown)` is
+    # public): its conversions are checked on a fully symbolic unknown packet, not only on those the generic parser produces
+    n_unk = 0
+    P_ = next((a for a in D.impls_of(PARSER_TRAIT) if F.adts[a]["is_enum"]), None)
+    unk_ = [a for a in D.impls_of(PARSER_TRAIT) if short(a) == "Unknown"]
+    ent_ = {D.impl_item(PARSER_TRAIT, a, "parse"): a for a in D.impls_of(PARSER_TRAIT) if a != P_}
+    if P_ and unk_:
+        from ..analysis import opaque_parse_hook
+        from ..interp import State
+        uvar = next((vd["name"] for vd in F.adts[P_]["variants"] if vd["fields"] and F.types[vd["fields"][0]["t"]].get("def") == unk_[0]), None)
+        for cd, tgt, by_ref, tr in D.conversions_from(P_) + D.conversions_from(unk_[0]):
+            if tr != "std::convert::TryFrom" or short(tgt) not in PACKET_TYPES:
+                continue
+            b = F.bodies[cd]
+            src_adt = F.types[F.strip_ref(b["params"][0]["t"])]["def"]
+            Ic = Interp(F)
+            Ic.call_hook = opaque_parse_hook(F, ent_)
+            pv = Ic.symbolic(D.ty_index_of_adt(unk_[0]), ("src",))
+            srcv = StructV(P_, uvar, {"0": pv}) if src_adt == P_ and uvar else pv
+            try:
+                couts = Ic.inline(cd, None, State(), [srcv])
+            except Unmodelled as ex:
+                res.unmodelled(cd, str(ex))
+                continue
+            vw = data_view(pv)
+            for s2, k2, r in couts:
+                e = err_payload(r)
+                if e is None or e.variant.startswith("<"):
+                    continue        # Ok, or the typed parser's own error (checked with that parser)
+                n_unk += check_err(res, s2, e, Header(vw) if vw is not None else None, PACKET_TYPES[short(tgt)]["pt"], cd, cd)
     res.floor("error outcomes of parsers checked", n_err, 60)
     res.floor("positional clause instances", n_pos, 40)
     res.floor("error outcomes of conversions / FCI extraction checked", n_conv, 40)
